@@ -104,6 +104,18 @@ PROPS = {
         "technique": "Lean 4 proof (mutual structural induction over the CBOR tree; case analysis over generated tables) + type-directed differential correspondence",
         "assumptions": [],
     },
+    "C17": {
+        "rule": "generated protected headers (alg absent / ES256 / ES384 / private-use / text; HMAC 256-256 / 256-64; kid, content format, extra integer and text labels), payloads of boundary and random sizes up to 66 kB attached or detached, AAD absent / empty / non-empty, tagged / untagged, P-256 and HMAC keys; "
+                "the payload-presence cube for PreparedCose*::new; signature_payload() vs the harness's own ciborium Sig_structure and vs Lean's; finalize; verify on the honest message and on every single-field alteration (payload, AAD, protected header, signature bit flip / truncation / zero, wrong key, both / no payload, unprotected header). "
+                "For Mac0 the Lean model recomputes HMAC-SHA-256 itself. Distinct by operation line",
+        "xlate_items": [],
+        "trusted_base": ["Model/Cose.lean (hand model of src/cose/sign1.rs, mac0.rs)", "for Sign1 the ECDSA primitive is a parameter: the harness observes parse/accept of the signature with p256 directly over its own independent Sig_structure and the model predicts the verdict from that",
+                         "Lean HMAC-SHA-256 (validated on every Mac0 case of every run)", "coset's classification of the protected alg (assigned / private use / text)"],
+        "level_text": "Lean theorems: preparation succeeds iff exactly one payload is present and then the to-be-signed bytes are the RFC 8152 structure; finalize inserts the signature and changes nothing else; verification succeeds iff (registered alg = verifier's) and exactly one payload and the primitive accepts the signature over the rebuilt structure; algorithm mismatch and payload errors as stated; the structure is injective in protected bytes, AAD and payload (via enc injectivity); Mac0 success iff tag = HMAC(MAC_structure). Tied by correspondence over generated headers/payloads and all single-field alterations.",
+        "level_note": "Trusted: Lean kernel; ECDSA unforgeability is not claimed by the theorems (they are stated relative to the primitive); coset header parsing.",
+        "technique": "Lean 4 proof (decision logic stated outright + injectivity of the CBOR encoder) + alteration correspondence with an independent Sig_structure",
+        "assumptions": ["the signature primitive is a parameter of the model"],
+    },
     "C18": {
         "rule": "every message emitted in generated sessions is fed as raw bytes to the Lean CDDL validator: device engagements for 37 retrieval configurations (no / BLE central, peripheral, both, with address, neither / NFC at boundary lengths / Wi-Fi with every subset of its optional fields / combinations / server retrieval), "
                 "session establishment, every request (decrypted) and response (decrypted: normal single- and multi-document, unheld-document errors, status 11/12 error responses), status-carrying SessionData, and issued MSOs for five device-key kinds x three digest algorithms with key authorisations, key info, expected update, non-UTC sub-second validity; "
